@@ -293,3 +293,39 @@ Definition check_odl (k : ucase) : bool :=
 Definition check_raw (k : ucase) : bool :=
   outcome_ok (length (k_store k)) (map (option_map strip) (k_outs k)) (run_raw k) (k_raw k).
 Definition check (k : ucase) : bool := check_odl k && (k_direct k || check_raw k).
+
+(* ---------------- legacy x.ufuncs on (nested) power spaces ---------------- *)
+From Verif Require Import C17.Legacy.
+Inductive lop := LU (u : uop) | LSc (o : bop) (c : Q) | LHalf.
+Definition lop_f (l : lop) (d : dt) (v : Q) : Q :=
+  match l with LU u => uop_ev u v | LSc o c => bop_ev o v c | LHalf => ndiv v (2 # 1) end.
+Fixpoint assoc_dt (tab : list (dt * dt)) (d : dt) : dt :=
+  match tab with
+  | [] => d
+  | (a, b) :: r => if dt_eqb a d then b else assoc_dt r d
+  end.
+Notation ptreeQ := (@ptree Q).
+Fixpoint ptree_close (a b : ptreeQ) : bool :=
+  match a, b with
+  | PLeaf d x, PLeaf e y => dt_eqb d e && Qsclose tol tol y x
+  | PNode ts, PNode us =>
+      (fix go (ts us : list ptreeQ) : bool :=
+         match ts, us with
+         | [], [] => true
+         | t :: ts', u :: us' => ptree_close t u && go ts' us'
+         | _, _ => false
+         end) ts us
+  | _, _ => false
+  end.
+Record lcase := mkLCase {
+  l_op : lop; l_rdt : list (dt * dt);       (* NumPy's result dtype per input dtype *)
+  l_tree : ptreeQ;
+  l_legacy : ptreeQ;                         (* x.ufuncs.<name>(...) *)
+  l_npcall : ptreeQ }.                       (* np.<name>(x, ...) on the element *)
+Definition is_node (t : ptreeQ) : bool := match t with PNode _ => true | _ => false end.
+Definition check_legacy (k : lcase) : bool :=
+  let F := assoc_dt (l_rdt k) in
+  let f := lop_f (l_op k) in
+  ptree_close (legacy1 castQ F f (l_tree k)) (l_legacy k)
+  && ptree_close (if is_node (l_tree k) then legacy1_spec castQ F f (l_tree k)
+                  else legacy1 castQ F f (l_tree k)) (l_npcall k).
